@@ -76,6 +76,7 @@ class Capture:
         self.bcs = None       # [(surface key, '*' or '+')]
         self.mats = None      # [(key, fractions, atom)]
         self.rescaled = None  # [(key, density, items)]
+        self.skip_reason = None
 
 
 def _snap_volume(vol):
@@ -121,31 +122,44 @@ def _snap_cells(mcnp_dict):
 
 @contextlib.contextmanager
 def capturing(cap):
-    '''Wrap construct_volume_t4 as seen by WriteT4Geometry.'''
+    '''Wrap construct_volume_t4 (a public, anchored function) where it is
+    defined AND under every name the writer module may have bound it to, so
+    that the way the caller imports it does not matter.'''
     from t4_geom_convert.Kernel.FileHandlers.Writer import WriteT4Geometry as WG
-    orig = WG.construct_volume_t4
+    from t4_geom_convert.Kernel.Volume import ConstructVolumeT4 as CV
+    orig = CV.construct_volume_t4
 
     def wrapper(*args, **kwargs):
         result = orig(*args, **kwargs)
-        dic_vol, mcnp_dict, surf_numbering, skipped, union_ids = result
-        dic_surface_mcnp = kwargs.get('dic_surface_mcnp',
-                                      args[4] if len(args) > 4 else None)
-        cap.vols = [(int(k),) + _snap_volume(v) for k, v in dic_vol.items()]
-        cap.surfs = [(int(k),) + _snap_surface(s)
-                     for k, s in surf_numbering.items()]
-        cap.skipped = [int(k) for k in skipped]
-        cap.union_ids = (int(union_ids[0]), int(union_ids[1]))
-        cap.cells = _snap_cells(mcnp_dict)
-        cap.bcs = [(int(k), v[0][0].boundary_cond)
-                   for k, v in dic_surface_mcnp.items()
-                   if v[0][0].boundary_cond != '']
+        try:
+            dic_vol, mcnp_dict, surf_numbering, skipped, union_ids = result
+            dic_surface_mcnp = kwargs.get('dic_surface_mcnp',
+                                          args[4] if len(args) > 4 else None)
+            cap.vols = [(int(k),) + _snap_volume(v) for k, v in dic_vol.items()]
+            cap.surfs = [(int(k),) + _snap_surface(s)
+                         for k, s in surf_numbering.items()]
+            cap.skipped = [int(k) for k in skipped]
+            cap.union_ids = (int(union_ids[0]), int(union_ids[1]))
+            cap.cells = _snap_cells(mcnp_dict)
+            cap.bcs = [(int(k), v[0][0].boundary_cond)
+                       for k, v in dic_surface_mcnp.items()
+                       if v[0][0].boundary_cond != '']
+        except Exception as exc:      # pylint: disable=broad-except
+            cap.vols = None
+            cap.skip_reason = f'snapshot: {type(exc).__name__}: {exc}'
         return result
 
-    WG.construct_volume_t4 = wrapper
+    patched = []
+    for mod in (CV, WG):
+        for name, val in list(vars(mod).items()):
+            if val is orig:
+                setattr(mod, name, wrapper)
+                patched.append((mod, name))
     try:
         yield
     finally:
-        WG.construct_volume_t4 = orig
+        for mod, name in patched:
+            setattr(mod, name, orig)
 
 
 def material_tables(deck_text, cells):
@@ -185,8 +199,11 @@ def convert(deck_text, args=()):
         return conv, None
     try:
         cap.mats, cap.rescaled = material_tables(deck_text, cap.cells)
-    except Exception:        # pylint: disable=broad-except
+    except Exception as exc:        # pylint: disable=broad-except
+        # the helpers of the composition package are C10's; if one is gone the
+        # byte tie of this run is skipped (recorded), the sweep still runs
         cap.mats, cap.rescaled = None, None
+        cap.skip_reason = f'material helpers: {type(exc).__name__}: {exc}'
     return conv, cap
 
 
